@@ -327,8 +327,12 @@ def r4_leaders(ctx, repo):
                 bad = bad or (fn, "on the path [%s] the leaders are not truncated after the last insertion: the leader set can exceed the population size" % p.describe(4))
             elif trunc_call is not None:
                 a0 = trunc_call.args[0] if trunc_call.args else None
-                if a0 is None or text(a0) not in (selfn + ".options['max_population_size']", selfn + ".n"):
-                    bad = bad or (trunc_call, "the leaders are truncated to %s, not to the population size option" % (text(a0) if a0 is not None else "nothing"))
+                if a0 is None or text(a0) != selfn + ".options['max_population_size']":
+                    if a0 is not None and access_path(a0) and access_path(a0).startswith(selfn + ".") and "options" not in text(a0):
+                        bad = bad or (trunc_call, "the leaders are truncated to %s, an attribute set when the algorithm was constructed, not to the population size option as it is when "
+                                      "the swarm runs: with a smaller configured swarm the leader archive exceeds the population size" % text(a0))
+                    else:
+                        bad = bad or (trunc_call, "the leaders are truncated to %s, not to the population size option" % (text(a0) if a0 is not None else "nothing"))
                 lp = [k.value for k in trunc_call.keywords if k.arg == "larger_preferred"] + list(trunc_call.args[2:3])
                 if lp and is_const(lp[0]) and const_value(lp[0]) is False:
                     bad = bad or (trunc_call, "leaders with the SMALLEST crowding distance are kept")
